@@ -13,14 +13,14 @@ def _p(engine, q_runs, q_faults, t_runs, t_faults, per_task=180):
 
 
 PLANS = {
-    "C03": _p("asm", 4000, 1500, 300000, 100000),
-    "C04": _p("bc", 3600, 1200, 300000, 100000),
-    "C05": _p("dyn", 3000, 900, 300000, 100000),
-    "C11": _p("law", 6000, 0, 600000, 0),
-    "C14": _p("fresh", 1400, 400, 200000, 60000),
-    "C15": _p("hist", 2800, 1400, 300000, 150000),
-    "C17": _p("pf", 2800, 700, 200000, 50000),
-    "C18": _p("hyper", 220, 60, 40000, 10000, per_task=300),
-    "C19": _p("mat", 1800, 400, 200000, 40000),
-    "C20": _p("mpi", 900, 300, 150000, 50000, per_task=300),
+    "C03": _p("asm", 9000, 3500, 300000, 100000),
+    "C04": _p("bc", 8000, 3000, 300000, 100000),
+    "C05": _p("dyn", 7000, 2500, 300000, 100000),
+    "C11": _p("law", 14000, 0, 600000, 0),
+    "C14": _p("fresh", 3600, 1200, 200000, 60000),
+    "C15": _p("hist", 6000, 3000, 300000, 150000),
+    "C17": _p("pf", 6000, 1800, 200000, 50000),
+    "C18": _p("hyper", 450, 150, 40000, 10000, per_task=300),
+    "C19": _p("mat", 4000, 1000, 200000, 40000),
+    "C20": _p("mpi", 2200, 800, 150000, 50000, per_task=300),
 }
